@@ -33,13 +33,17 @@ def corrupt(bc):
 def select_cases(ctx):
     q = ctx.tier == "quick"
     tri = bh.gen_triples(ctx, ctx.q("c29_gen_triples_q.cfg", "c29_gen_triples.cfg"))
-    tri0 = bh.gen_triples(ctx, ctx.q("c29_gen_triples_null_q.cfg", "c29_gen_triples_null.cfg"))
+    # the {NULL,v1} space is always enumerated completely: quick runs a sample of it plus EVERY triple in which a conflicted key is
+    # followed (in key order) by a cell-wise resolved key (state carried from one TryMerge call to the next, e.g. the tuple builder)
+    tri0 = bh.gen_triples(ctx, "c29_gen_triples_null.cfg")
     d1 = [c for c in bh.gen_triples(ctx, ctx.q("c29_gen_delta1_q.cfg", "c29_gen_delta1.cfg")) if c["delta"]["kind"] != "none"]
     hist = bh.gen_histories(ctx, "c29_gen_hist.cfg", num=ctx.q(24, 400), depth=7)
     ctx.rng.shuffle(hist)
     ctx.cov["generated"] = {"triples": len(tri), "triples_null": len(tri0), "delta_1key": len(d1), "histories": len(hist)}
     if q:
-        sel = bh.stratified_sample(ctx.rng, tri, 300) + bh.stratified_sample(ctx.rng, tri0, 140)
+        seq = [c for c in tri0 if any(m["ops"][0] in ("divergentModifyConflict", "divergentDeleteConflict") and m["ops"][1] == "divergentModifyResolved" for m in c["m"])]
+        ctx.cov["conflict_then_resolved_cases"] = len(seq)
+        sel = bh.stratified_sample(ctx.rng, tri, 300) + bh.stratified_sample(ctx.rng, tri0, 140) + ctx.rng.sample(seq, min(len(seq), 240))
         # the suspicion of DESIGN section 7 item 6 first: delete vs. modify with a column added / reordered on the modifying side
         flagged = [c for c in d1 if c["alias"] or c["m"][0]["pbc"] or c["m"][1]["pbc"]]
         deltas = bh.stratified_sample(ctx.rng, d1, 70) + ctx.rng.sample(flagged, min(len(flagged), 10))
@@ -83,6 +87,11 @@ def run(ctx):
                         "delete vs. an edit that only touches a column the base does not have resolves to the delete (spec: DeleteWinsOverNewColumnEdit, as the code and DESIGN C29)"]
     batches = bh.make_batches(ctx, sel, "keyed", PATHS, ctx.q(20, 25), bh.bind_keyed) \
         + bh.make_batches(ctx, deltas + hs, "keyed", PATHS, 1, bh.bind_keyed)
+    # multi-chunk tables on the chunk-level merge path (engine mode c30 without the statistics comparison): pure-update triples
+    # whose model keys sit on the first / middle / last keys of three consecutive leaf chunks
+    sb, nsc = bh.scatter_batches(ctx, [c for c in sel if not any(v == 0 for r in c["base"] for v in r["r"][:2])], ctx.q(32, 300), ctx.q(12, 150), nostats=True)
+    batches += sb
+    ctx.cov["chunk_edge_cases"] = nsc
     good = next((b for b in bh.make_batches(ctx, [c for c in sel if c["m"][0]["conf"]][:1], "keyed", PATHS, 1, bh.bind_keyed)), None)
     if good:
         bh.selftest(ctx, binary, good, corrupt)
